@@ -23,7 +23,7 @@ def run_zckdl(bd, cwd, url, src=None, kill=None, timeout=60, fault=None, trace=N
         return "Hang"
 
 
-def tool_event(B, h, A, before, after, ranges, status, full=False, must=False):
+def tool_event(B, h, A, before, after, ranges, status, full=False, must=False, bvalid=True):
     """one zckdl run -> a `toolrun` event with facts"""
     n = len(h.entries)
     ext = delta.extents(h)
@@ -46,4 +46,4 @@ def tool_event(B, h, A, before, after, ranges, status, full=False, must=False):
             break
     # all chunks right but the whole-data checksum wrong does not occur here (B is genuine)
     return {"op": "toolrun", "status": status if isinstance(status, int) else 98, "eqB": after == B, "X": sorted(c + 1 for c in X), "wholeChunks": whole,
-            "disk": d0, "usable": usable, "sized": sized, "n": n, "full": bool(full), "must": bool(must)}
+            "disk": d0, "usable": usable, "sized": sized, "n": n, "full": bool(full), "must": bool(must), "bValid": bool(bvalid)}
